@@ -137,6 +137,34 @@ Definition product (rs : ruleset) (r : parsed) : P :=
   pmul a (match base_get (r_bases rs) (p_base r) with Some v => v | None => p0 end)
   end end end end end.
 
+(* the check added to parse() after the product (regenerated constant
+   scorer_rebuild_check says whether the source has it):
+     alpha_sections = [x[0] for x in section_list if x[1] and x[1][0] == 'A']
+     for text, word, mask in zip(alpha_sections, found_alpha_strings, found_mask_list):
+         rebuilt = ''.join(c.upper() if m == 'U' else c for c, m in zip(word, mask))
+         if rebuilt != text: cur_prob = 0 *)
+Variable rebuild_check : bool.
+Variable upper_c : N -> str.
+Definition chUs : N := 85%N.
+
+Fixpoint rebuild (word mask : str) : str :=
+  match word, mask with
+  | c :: wr, m :: mr => (if N.eqb m chUs then upper_c c else [c]) ++ rebuild wr mr
+  | _, _ => []
+  end.
+
+Definition alpha_sections (sl : list section) : list str :=
+  map fst (filter (fun x => match snd x with Some (LA _) => true | _ => false end) sl).
+
+Fixpoint rebuild_all (texts words masks : list str) : bool :=
+  match texts, words, masks with
+  | t :: tr, w :: wr, m :: mr => str_eqb (rebuild w m) t && rebuild_all tr wr mr
+  | _, _, _ => true
+  end.
+
+Definition rebuild_ok (r : parsed) : bool :=
+  rebuild_all (alpha_sections (p_sections r)) (p_alpha r) (p_masks r).
+
 (* PCFGPasswordScorer.parse: (category e / w / other, probability); None = an
    exception.  [seg] is the segmentation pipeline shared with the trainer
    (Segment.parse with the scorer's own multi-word detector); the early return
@@ -149,7 +177,7 @@ Definition score (seg : str -> presult) (rs : ruleset) (s : str) : option (categ
       if nonempty (p_emails r) then Some (CatE, p0)
       else if nonempty (p_urls r) then Some (CatW, p0)
       else if negb (p_supported r) then Some (CatOther, p0)
-      else Some (CatOther, product rs r)
+      else Some (CatOther, if rebuild_check && negb (rebuild_ok r) then p0 else product rs r)
   end.
 
 End Scorer.
